@@ -140,3 +140,40 @@ Fixpoint s2_stmt (x : stmt) : bool :=
   | SAllAssign _ _ | SClass _ _ _ _ _ _ | SDoc _ _ _ => false
   end.
 Definition s2_block (l : list stmt) : bool := forallb s2_stmt l.
+
+(* ---------- stage 2 for the unused side (C02): stage-2 code whose import statements are top-level statements of the
+   module (what tidy-imports edits), every import binding a one-component key, no `from __future__ import` ---------- *)
+Fixpoint noimp_stmt (x : stmt) : bool :=
+  let blk := fix blk (l : list stmt) : bool := match l with [] => true | y :: r => noimp_stmt y && blk r end in
+  match x with
+  | SImport _ _ | SImportFrom _ _ _ => false
+  | SDef _ _ _ _ _ body => blk body
+  | SClass _ _ _ _ _ body => blk body
+  | SFor _ _ _ b o => blk b && blk o
+  | SWhile _ _ b o => blk b && blk o
+  | SIf _ _ b o => blk b && blk o
+  | SWith _ _ b => blk b
+  | STry _ b hs o f =>
+      blk b && (fix hl (l : list handler) : bool := match l with [] => true | Handler _ _ _ hb :: r => blk hb && hl r end) hs
+      && blk o && blk f
+  | _ => true
+  end.
+Definition u2_top (x : stmt) : bool :=
+  match x with
+  | SImport _ items => forallb u1_import_item items
+  | SImportFrom _ m items => not_future m && forallb s1_from_item items
+  | _ => s2_stmt x && noimp_stmt x
+  end.
+Definition u2_block (l : list stmt) : bool := forallb u2_top l.
+
+(* every name bound by an import is bound exactly once at module level, and is not a builtin / initial-namespace name:
+   the binding a function body sees when it runs is the one pyflyby sees when it scans the body (F34, F31 otherwise) *)
+Fixpoint count_name (x : name) (l : list name) : nat :=
+  match l with [] => 0 | y :: r => (if N.eqb x y then 1 else 0) + count_name x r end.
+Definition imports_once (bi : list name) (ns : list (list name)) (p : program) : bool :=
+  let bs := bsrcs_block false p in
+  forallb (fun xb : name * bsrc =>
+             match snd xb with
+             | BImp _ _ => Nat.eqb (count_name (fst xb) (map fst bs)) 1 && negb (mem (fst xb) (bi ++ concat ns))
+             | BOther => true
+             end) bs.
